@@ -2,7 +2,7 @@
 # seedtest.sh <out-dir> <property> [tier]  -- confirm a seeded change and run the property's check against it
 # out-dir holds patch.diff, demo_test.go, meta.json
 set -u
-OUT=$1; P=$2; TIER=${3:-quick}
+OUT=$(readlink -f $1); P=$2; TIER=${3:-quick}
 W=/tmp/mut/verify
 # SKIP_CONFIRM=1: the change was confirmed before (meta.json "confirmed"); only run the check against it
 if [ "${SKIP_CONFIRM:-0}" = 1 ]; then
